@@ -72,7 +72,7 @@ def _precondition(K, rec, res, view):
     if res.raised is not None:
         raise Violation("C18:" + ("raised:loop-recovery" if res.shape.kind == "loop" else view.raised_kind()), f"{res.raised_msg}; plan {res.plan}; versions {res.versions}")
     if res.output != res.shape.reference_output():
-        raise Violation("C18:" + K.output_kind(res.output, res.shape.reference_output()), f"{res.output!r} != {res.shape.reference_output()!r}; plan {res.plan}")
+        raise Violation("C18:" + view.output_kind(res.output, res.shape.reference_output()), f"{res.output!r} != {res.shape.reference_output()!r}; plan {res.plan}")
 
 
 def _nontrivial(rec, shape, view):
